@@ -28,8 +28,8 @@ MANIFEST = {
              "about the executable model CB.arrive/CB.complete; the model is tied to cbreaker.go by a differential run of the real "
              "CircuitBreaker (real predicate parser, real RTMetrics) and the compiled model on generated interleavings."),
     "note": ("Trusted: Lean kernel; propext/Classical.choice/Quot.sound; hand-written model validated against the code on the generated scenarios only; "
-             "each activateFallback/checkAndSet is one atomic step (C09); latency quantiles enter the model as an oracle value read from a shadow "
-             "RTMetrics; monotone clock."),
+             "each activateFallback/checkAndSet is one atomic step (C09); latency quantiles are computed by the model's own histogram (Model/Hist.lean, see C18) up to the float "
+             "rounding of the percentile count; monotone clock."),
     "technique": "Lean 4 proof (trace induction over an executable state machine) + differential correspondence with cbreaker.CircuitBreaker",
 }
 
